@@ -93,6 +93,16 @@ theorem noDuplicates_perm {l₁ l₂ : List Cand} (hp : l₁.Perm l₂) (h : noD
   intro x y hxy hd
   exact hxy ⟨hd.1.symm, sameMembers_symm hd.2⟩
 
+/-- `_merge_sets` as it was before fix D16: one forward pass per set (negation witness only) -/
+def singlePassMerge (groups : List (List Nat)) : List (List Nat) :=
+  let rec go : Nat → List (List Nat) → List (List Nat)
+    | 0, l => l
+    | _, [] => []
+    | n + 1, first :: rest =>
+      if first.isEmpty then first :: go n rest
+      else let p := absorbPass first rest; p.1 :: go n p.2.1
+  (go groups.length groups).filter fun g => !g.isEmpty
+
 /-- kinds and member ids of a result, for concrete examples -/
 def summary (r : E (List Cand)) : Option (List (Kind × List Nat)) :=
   match r with
